@@ -22,6 +22,12 @@ RULE = ("every operator (+ - * // / % divmod, == != < <= > >=, unary - abs + has
         "public accessor read in between: op touch). Every step is judged on its own operands by the stdlib oracle and the whole history is run in the Gallina model "
         "(run_history); steps with an AbsoluteDuration operand are executed but neither judged (outside the statement) nor modelled. "
         "prim-timedelta_to_microseconds-history: the divisor conversion on 2-4 twins in a row against divisor_us. "
+        "REFLECTED OPERATORS (reflected-table: all 7 operators x 10 lefts x 13 rights; reflected-<op>: 1500 random): a plain timedelta / int / float on the LEFT and on the right "
+        "every kind of pendulum object of a given length: Duration (plain, mixed units), Interval signed (end > start), inverted (end < start), ABSOLUTE given start-first and "
+        "end-first (value [ivl, delta, 1] = Interval(base, base + delta, absolute=True)), lengths 0 / 1 us, AbsoluteDuration (oracle only: judged when consistent, N >= 0, and for "
+        "N < 0 under the reflected - // / % divmod inherited from timedelta) -- __radd__ / __rmul__ are pendulum's, __rsub__ __rfloordiv__ __rtruediv__ __rmod__ __rdivmod__ must remain "
+        "timedelta's own arithmetic on the native lengths; absolute-left-*: the absolute Intervals / AbsoluteDurations on the LEFT of every operator; interval-unary: -i abs(i) +i bool(i) "
+        "of every kind of Interval (model entry ivl_unop; -i of a non-zero absolute Interval is the known finding neg-absolute-interval). "
         "A case is non-trivial when an operand is non-zero.")
 EXHAUSTIVE = {"quick": False, "thorough": False}
 VM_SUBSET = 60
@@ -129,8 +135,18 @@ def v_td(n):
     return ["td", int(n)]
 
 
-def v_ivl(n):
-    return ["ivl", int(n)]
+def v_ivl(n, absolute=0):
+    """Interval(base, base + n us) -- with absolute=1 Interval(base, base + n us, absolute=True): n < 0 is `absolute, given end first`"""
+    return ["ivl", int(n), 1] if absolute else ["ivl", int(n)]
+
+
+def ivl_abs(v):
+    return v[0] == "ivl" and len(v) > 2 and bool(v[2])
+
+
+def ivl_eff(v):
+    """end - start of the Interval as stored: an absolute Interval swaps its end points when start > end"""
+    return abs(v[1]) if ivl_abs(v) else v[1]
 
 
 def dur_native(a):
@@ -149,7 +165,7 @@ def enc(v):
 
 
 def tdlike(v):
-    return v[0] in ("dur", "td", "ivl")
+    return v[0] in ("dur", "td", "ivl", "adur")
 
 
 # ----------------------------------------------------------------------------- case streams
@@ -203,7 +219,7 @@ def cases(tier, seed):
     def binop(stream, op, l, r):
         if l[0] in ("dur", "ivl") and r[0] == "ivl":
             return          # an Interval on the right of a Duration: the subclass's own reflected methods, not part of the model
-        if not ({l[0], r[0]} & {"dur", "ivl"}):
+        if not ({l[0], r[0]} & {"dur", "ivl", "adur"}):
             return          # no pendulum object involved
         if op in CMP and "ivl" in (l[0], r[0]):
             return          # Interval overrides __eq__/__hash__ (start, end, absolute): outside the statement
@@ -349,6 +365,8 @@ def cases(tier, seed):
         binop("range", "mul", v_dur(rnd.randrange(1, 10 ** 12)), v_float(rnd.choice([1e300, -1e12, 1e18])))
         binop("range", "truediv", v_dur(rnd.randrange(1, 10 ** 14)), v_float(rnd.choice([1e-300, 5e-324, -1e-12])))
         binop("range", "sub", v_td(a), v_dur(-a))
+    # 9b. a plain timedelta / int / float on the LEFT of every operator, every kind of pendulum object on the RIGHT (own random stream)
+    reflected_cases(random.Random(seed * 104729 + 1010), scale, binop, unop)
     # 10. primitives
     for _ in range(1500 * scale):
         a = rnd.choice([1, -1]) * rnd.randrange(0, 10 ** rnd.randrange(1, 24))
@@ -372,6 +390,68 @@ def cases(tier, seed):
     # 11. histories: several operator calls in one process (own random stream: the streams above stay as they were)
     history_cases(random.Random(seed * 7919 + 1010), scale, out)
     return out
+
+
+# ----------------------------------------------------------------------------- reflected operators
+def right_kinds(rnd, n):
+    """every kind of pendulum object of native length n (|n| for the absolute ones) that can stand on the right of a plain timedelta / number:
+    Duration (plain / mixed units), Interval signed or inverted (the sign of n), absolute Interval given start-first and end-first,
+    AbsoluteDuration (native length n, total_seconds() |n|)"""
+    return [v_dur(n), v_dur(n, rnd=rnd), v_ivl(n), v_ivl(abs(n), 1), v_ivl(-abs(n), 1), v_adur(n)]
+
+
+def reflected_cases(rnd, scale, binop, unop):
+    """`x <op> P` for x a plain timedelta / int / float and P a Duration, AbsoluteDuration or Interval (signed, inverted, absolute given in
+    either order): Python asks P's reflected method first (P's class is a subclass of timedelta); __radd__ / __rmul__ are pendulum's own,
+    __rsub__ __rfloordiv__ __rtruediv__ __rmod__ __rdivmod__ are INHERITED from timedelta and must stay exactly the native arithmetic on
+    the native lengths -- a reflected method added to Duration is inherited by Interval and AbsoluteDuration, whose -x / abs / total_seconds
+    differ from Duration's.  Also: the same objects on the LEFT, and -x abs(x) +x bool(x) of every kind of Interval."""
+    X = 3 * DAY_US + 6 * 3600 * US + 30 * 60 * US + 250
+    lefts = [v_td(10 * DAY_US), v_td(-(7 * 3600 * US) + 3), v_td(0), v_td(1), v_td(X), v_td(-X), v_int(3), v_int(-2), v_float(2.5), v_float(-0.5)]
+    rights = [v_dur(X), v_dur(-(5 * 3600 * US + 1)), v_dur(0), v_ivl(X), v_ivl(-X), v_ivl(X, 1), v_ivl(-X, 1), v_ivl(0, 1), v_ivl(1, 1), v_ivl(-1, 1),
+              v_adur(X), v_adur(-X), v_adur(0)]
+    for op in ARITH:
+        for l in lefts:
+            for r in rights:
+                binop("reflected-table", op, l, r)
+    for op in ARITH:
+        for l in (v_ivl(X, 1), v_ivl(-X, 1), v_ivl(0, 1), v_adur(X), v_adur(0)):
+            for r in (v_td(5 * 3600 * US), v_td(-X), v_td(0), v_dur(7 * 3600 * US + 1), v_dur(-X), v_int(3), v_int(-2), v_int(0), v_float(2.5), v_float(-0.5)):
+                binop("absolute-left-table", op, l, r)
+    for op in ("neg", "abs", "pos", "bool"):
+        for v in (v_ivl(X), v_ivl(-X), v_ivl(X, 1), v_ivl(-X, 1), v_ivl(0), v_ivl(0, 1), v_ivl(1, 1), v_ivl(-1, 1), v_ivl(-1), v_ivl(DAY_US, 1)):
+            unop("interval-unary", op, v)
+    H = B31 // 2
+    for _ in range(1500 * scale):
+        op = rnd.choice(ARITH)
+        n = rand_n(rnd, hi=H)
+        if op in DIVOPS and rnd.random() < 0.5:
+            n = rnd.choice([1, -1]) * rnd.randrange(1, 10 ** rnd.randrange(1, 10))          # small divisors: large quotients
+        r = rnd.choice(right_kinds(rnd, n))
+        k = rnd.random()
+        if op == "mul" or k < 0.12:
+            l = v_int(rnd.choice([1, -1]) * rnd.randrange(0, 10 ** rnd.randrange(1, 4))) if rnd.random() < 0.5 else v_float(rand_float_operand(rnd))
+            if l[0] == "int" and r[0] != "dur":
+                r = rnd.choice(right_kinds(rnd, rand_n(rnd, hi=max(2, H // max(1, abs(l[1]))))))     # |k * N| inside the exact domain
+            elif l[0] == "int":
+                r = v_dur(rand_n(rnd, hi=max(2, H // max(1, abs(l[1])))), rnd=rnd)
+        elif k < 0.2:
+            l = v_td(rnd.choice([0, 1, -1, n, -n, abs(n), -abs(n), 2 * n, n + 1, n - 1]))
+        else:
+            l = v_td(rand_n(rnd, hi=H))
+        binop("reflected-" + op, op, l, r)
+    for _ in range(300 * scale):
+        op = rnd.choice(ARITH)
+        n = rand_n(rnd, hi=H)
+        l = rnd.choice([v_ivl(abs(n), 1), v_ivl(-abs(n), 1), v_adur(abs(n))])
+        rk = rnd.choice(["dur", "td", "int", "float"])
+        m = rnd.choice([1, -1]) * rnd.randrange(1, 10 ** rnd.randrange(1, 10)) if op in DIVOPS and rnd.random() < 0.5 else rand_n(rnd, hi=H)
+        r = v_dur(m, rnd=rnd) if rk == "dur" else v_td(m) if rk == "td" else v_float(rand_float_operand(rnd)) if rk == "float" else \
+            v_int(rnd.choice([1, -1]) * rnd.randrange(0, max(2, min(10 ** 4, H // max(1, abs(n))))))
+        binop("absolute-left-" + op, op, l, r)
+    for _ in range(300 * scale):
+        n = rand_n(rnd, hi=H)
+        unop("interval-unary", rnd.choice(["neg", "abs", "pos", "bool"]), rnd.choice([v_ivl(n), v_ivl(abs(n), 1), v_ivl(-abs(n), 1)]))
 
 
 # ----------------------------------------------------------------------------- histories (fn "seq")
@@ -648,6 +728,13 @@ def _canon(r, Duration):
         return [0, 6, r[0]] + _triple(r[1])
     if t is bool:
         return [0, 7, int(r)]
+    # results of the subclasses (self.__class__(...) inside an operator of an AbsoluteDuration; -i / abs(i) of an Interval)
+    if t.__name__ == "AbsoluteDuration" and isinstance(r, Duration):
+        return [0, 11] + _obs(r)
+    if t.__name__ == "Interval" and isinstance(r, Duration):
+        return [0, 12] + _obs(r) + [int(bool(r._absolute))]
+    if t is tuple and len(r) == 2 and type(r[0]) is int and type(r[1]).__name__ == "AbsoluteDuration" and isinstance(r[1], Duration):
+        return [0, 14, r[0]] + _obs(r[1])
     return [0, "type:" + t.__name__]
 
 
@@ -723,7 +810,11 @@ def impl_run(cases):
         if k == "td":
             return timedelta(microseconds=v[1])
         if k == "ivl":
+            if len(v) > 2 and v[2]:
+                return Interval(base, base + timedelta(microseconds=v[1]), absolute=True)
             return Interval(base, base + timedelta(microseconds=v[1]))
+        if k == "adur":
+            return AbsoluteDuration(microseconds=v[1])
         raise ValueError(k)
     out = []
     for c in cases:
@@ -776,8 +867,12 @@ def impl_run(cases):
 def model_calls(c, backend):
     fn, a = c["fn"], c["args"]
     if fn == "binop":
+        if "adur" in (a[1][0], a[2][0]):
+            return None          # AbsoluteDuration operands: judged by the oracle, not modelled
         return [("binop", [BINOPS[a[0]]] + enc(a[1]) + enc(a[2]))]
     if fn == "unop":
+        if a[1][0] == "ivl":
+            return [("ivl_unop", [UNOPS[a[0]], a[1][1], int(ivl_abs(a[1]))])]
         return [("unop", [UNOPS[a[0]]] + enc(a[1]))]
     if fn == "seq":
         flat = []
@@ -841,8 +936,10 @@ def _native(v):
         return timedelta(microseconds=dur_native(v[1:]))
     if k == "td":
         return timedelta(microseconds=v[1])
-    # an Interval's own length: Duration.__new__(seconds=delta.total_seconds())
-    return timedelta(seconds=timedelta(microseconds=v[1]).total_seconds())
+    if k == "adur":
+        return timedelta(microseconds=v[1])          # the native length of AbsoluteDuration(microseconds=N) is N, sign included
+    # an Interval's own length: Duration.__new__(seconds=delta.total_seconds()), end points swapped when absolute and start > end
+    return timedelta(seconds=timedelta(microseconds=ivl_eff(v)).total_seconds())
 
 
 def _expected(fn, op, vals):
@@ -859,8 +956,10 @@ def _expected(fn, op, vals):
 def _value_of(r):
     """(kind, comparable value) of an implementation result"""
     k = r[1]
-    if k == 1:
+    if k in (1, 11, 12):
         return k, (r[2] * 86400 + r[3]) * US + r[4]
+    if k == 14:
+        return k, (r[2], (r[3] * 86400 + r[4]) * US + r[5])
     if k == 2:
         return k, r[2]
     if k == 3:
@@ -878,11 +977,26 @@ def _value_of(r):
     return k, None
 
 
+DUR_KINDS = (1, 11, 12)        # Duration, AbsoluteDuration, Interval: each is a Duration
+INHERITED_REFLECTED = ("sub", "floordiv", "truediv", "mod", "divmod")
+
+
+def _adur_judged(fn, op, vals):
+    """AbsoluteDuration(microseconds=N) is inside the statement while it is consistent with itself (N >= 0: native length = total_seconds());
+    for N < 0 (native length N, total_seconds() |N|: what Time.diff builds) only where no method of pendulum runs at all:
+    timedelta <op> it for the reflected operators inherited from timedelta, which are plain arithmetic on the native lengths"""
+    if all(v[0] != "adur" or v[1] >= 0 for v in vals):
+        return True
+    return fn == "binop" and vals[0][0] == "td" and op in INHERITED_REFLECTED
+
+
 def _compare(c, r):
     """None when the implementation result r agrees with the same operation on the native values; else (why, deviation or None)."""
     from datetime import timedelta
     fn, a = c["fn"], c["args"]
     op, vals = a[0], a[1:]
+    if not _adur_judged(fn, op, vals):
+        return None
     try:
         natives = [_native(v) for v in vals]
     except OverflowError:
@@ -910,7 +1024,7 @@ def _compare(c, r):
         check_value = kind in (5, 6)       # years/months: only neg, int scaling, comparisons, hash (and what timedelta itself computes) are claimed
     if check_value:
         if isinstance(exp, timedelta):
-            if kind not in (1, 5, 8):
+            if kind not in DUR_KINDS + (5, 8):
                 return (f"result kind {kind} where the native result is a timedelta", None)
             if val != _us(exp):
                 return (f"length {val} us, native {shown} = {_us(exp)} us (diff {val - _us(exp)})", val - _us(exp))
@@ -924,10 +1038,10 @@ def _compare(c, r):
             if kind != 3 or list(val) != fcode(exp):
                 return (f"float {fdecode(val) if kind == 3 else r[1:]!r} where native {shown} = {exp!r}", 0 if kind == 3 else None)
         elif isinstance(exp, tuple):
-            if kind not in (4, 6) or val != (exp[0], _us(exp[1])):
-                return (f"divmod {val} where native {shown} = ({exp[0]}, {_us(exp[1])} us)", 0 if kind in (4, 6) else None)
+            if kind not in (4, 6, 14) or val != (exp[0], _us(exp[1])):
+                return (f"divmod {val} where native {shown} = ({exp[0]}, {_us(exp[1])} us)", 0 if kind in (4, 6, 14) else None)
     # --- component-wise action on years / months
-    if fn == "unop" and op == "neg":
+    if fn == "unop" and op == "neg" and vals[0][0] == "dur":
         y, mo = vals[0][8], vals[0][9]
         if kind != 1 or r[8:10] != [-y, -mo]:
             return (f"-Duration(years={y}, months={mo}) has years/months {r[8:10]}", None)
@@ -939,15 +1053,16 @@ def _compare(c, r):
     # --- the return type table
     if fn == "binop" and op in ARITH:
         want = None
-        if vals[0][0] in ("dur", "ivl"):
+        if vals[0][0] in ("dur", "ivl", "adur"):
             want = 1 if isinstance(exp, timedelta) else 2 if isinstance(exp, int) else 3 if isinstance(exp, float) else 4
         elif vals[0][0] == "td" and op == "add":
             want = 1
         elif op == "mul":
             want = 1           # int * Duration, float * Duration (__rmul__ = __mul__)
-        if want is not None and kind != want:
-            return (f"result kind {kind} (1 Duration 2 int 3 float 4 (int, Duration) 5 timedelta), the statement requires {want}", None)
-    if fn == "unop" and op == "neg" and kind != 1:
+        if want is not None and kind not in ({1: DUR_KINDS, 4: (4, 14)}.get(want, (want,))):
+            return (f"result kind {kind} (1 Duration 2 int 3 float 4 (int, Duration) 5 timedelta 11 AbsoluteDuration 12 Interval 14 (int, AbsoluteDuration)), "
+                    f"the statement requires {want}", None)
+    if fn == "unop" and op == "neg" and kind not in DUR_KINDS:
         return ("negation does not return a Duration", None)
     return None
 
@@ -1064,6 +1179,11 @@ def known(c, backend, r):
     #    under this id, as a VIOLATION with the failing input.
     if (c["fn"] == "binop" and op in DIVOPS and vals[0][0] in ("dur", "ivl") and vals[1][0] == "td" and r == [1, "AttributeError"]):
         return "div-by-plain-timedelta"
+    # 1b. -i of an ABSOLUTE Interval of non-zero length is the Interval itself (Interval.__neg__ hands the swapped end points to a constructor that
+    #     swaps them back): the native negation has the opposite sign.  Exactly that: an Interval result, still absolute, of the unchanged length.
+    if (c["fn"] == "unop" and op == "neg" and vals[0][0] == "ivl" and ivl_abs(vals[0]) and vals[0][1] != 0
+            and r[0] == 0 and r[1] == 12 and r[-1] == 1 and _value_of(r)[1] == _us(_native(vals[0]))):
+        return "neg-absolute-interval"
     # 2. float reconstruction: + - int* (and everything through Interval.as_duration / _to_microseconds beyond 2^33 s) lose microseconds once an
     #    operand or the result reaches 2^31 s
     w = _compare(c, r)
@@ -1113,7 +1233,7 @@ TECHNIQUE = "translator (py2gallina + per-branch constructor-argument extraction
 # the statements that carried them are restated without premise
 TRUSTED = list(TRUSTED) + [
     "Flocq (installed library) correctness theorems for binary64 operations, bridged to Coq's SpecFloat in coq/Proofs/FloatRoundTripBase.v / FloatRoundTripNear.v (Bplus, Bminus, Bmult, Bdiv, binary_round; relative_error_N_FLT)",
-    "standard-library axioms reported by Print Assumptions for the unconditional float theorems only (to_microseconds_constructed, remainder_constructible, chain_mod_then_div, add_exact, sub_exact, mul_int_exact): ClassicalDedekindReals.sig_not_dec, "
+    "standard-library axioms reported by Print Assumptions for the unconditional float theorems only (to_microseconds_constructed, remainder_constructible, chain_mod_then_div, add_exact, sub_exact, mul_int_exact, and the Interval theorems that use the exact round trip of total_seconds() below 2^33 s: interval_native_length, timedelta_minus_absolute_interval_exact(_example), interval_negation_signed, interval_negation_native_refuted / _partial, interval_abs_native_length): ClassicalDedekindReals.sig_not_dec, "
     "ClassicalDedekindReals.sig_forall_dec, FunctionalExtensionality.functional_extensionality_dep, Classical_Prop.classic (the real-number axioms Flocq and Reals rest on); "
     "every other theorem, the *_partial forms included, is closed under the global context",
 ]
@@ -1132,6 +1252,12 @@ TRUSTED = list(TRUSTED) + [
     "already validated td_us_of_float_seconds shifted; validated bit for bit through Duration(seconds=x, years=, months=) by the prim-duration_of_float_seconds stream; "
     "still hand-written CPython primitives: py_as_integer_ratio, py_int_truediv (Model/DurationOps.v, validated by the prim-* streams)",
 ]
+LEVEL_NOTE = LEVEL_NOTE + (" Reflected operators: a plain timedelta on the left of an Interval of every kind (signed, inverted, absolute in either order of the end points) is inside "
+                           "the model (decode kind 5 carries the absolute flag: interval_new_abs; reflected_operators_are_native, reflected_operand_class_irrelevant, "
+                           "timedelta_minus_absolute_interval_exact, absolute_interval_order_irrelevant, interval_native_length), as are -i / abs(i) of an Interval (dispatch entry ivl_unop; "
+                           "interval_negation_signed, interval_negation_native_refuted / _partial = finding neg-absolute-interval, interval_abs_native_length). The end-point swap of "
+                           "Interval.__new__ and Interval.__neg__ / __abs__ are HAND-modelled (not translated) and tied by the correspondence streams only. AbsoluteDuration operands of the "
+                           "reflected-* / absolute-left-* streams are oracle-only (model_calls returns None).")
 LEVEL_NOTE = LEVEL_NOTE + (" Model = code: coq/Gen/DurationOpsFloat.v is translated from duration.py / interval.py on every run (every operator method whole, Duration(seconds=<float>, "
                            "years=, months=), _divide_and_round on ints and on (int, float), _to_microseconds, _timedelta_to_microseconds, Interval.as_duration and the delegating "
                            "operators) and Proofs/DurationOpsFloatFacts.v proves each equal to the hand model's dur_method / unop / durlike_method entry for all operands, so a semantic "
